@@ -104,11 +104,11 @@ static int sched_ip_schedule(parsec_execution_stream_t* es,
         it = (parsec_list_item_t*)((parsec_list_item_t*)it)->list_next;
     } while( it != (parsec_list_item_t*)new_context );
 #endif
-    if( 0 == distance ) {
-        parsec_mca_sched_list_local_counter_chain_sorted(sl, new_context, parsec_execution_context_priority_comparator);
-    } else {
-        parsec_mca_sched_list_local_counter_chain_back(sl, new_context);
-    }
+    /* Always insert sorted, as the absolute-priority scheduler does: select pops from the
+     * back (lowest priority first), so appending a rescheduled ring at the back made it the
+     * next selection regardless of priority. */
+    parsec_mca_sched_list_local_counter_chain_sorted(sl, new_context, parsec_execution_context_priority_comparator);
+    (void)distance;
     return PARSEC_SUCCESS;
 }
 
